@@ -165,6 +165,21 @@ def _set_config(ctx, prog):
         ok = bool(mem) and tm.fold(
             e.live, lambda t: (mem[0].args[0] == "NotIn") if t is mem[0]
             else None) is False
+        if not ok and not mem:
+            # the key is taken at a position from a list of positions that
+            # was filtered by membership beforehand (one pass over the
+            # arguments): whether every position used is a filtered one
+            # (sentinels, zip truncation) is not modelled
+            filt = [x for x in k.walk() if x.op == "comp" and any(
+                c.op == "cmp" and c.args[0] == "In" and any(
+                    is_call_to(y, "json.load", ".keys") or
+                    y.op == "loopvar" for y in c.args[2].walk())
+                for c in x.args[3])]
+            if filt:
+                ctx.undecidable("C18.1", e, f"set: config[{fmt(k)[:70]}] is "
+                                f"keyed through a membership-filtered index "
+                                f"list")
+                continue
         ctx.ob("C18.1", e, ok,
                "set: a key is only written if it already exists in the "
                "config" if ok else
